@@ -107,8 +107,36 @@ pub struct Collector {
     start: std::time::Instant,
 }
 
+/// start (ms since the epoch) of the case the worker is executing, 0 between cases
+static BUSY_SINCE_MS: std::sync::atomic::AtomicU64 = std::sync::atomic::AtomicU64::new(0);
+
+fn now_ms() -> u64 {
+    std::time::SystemTime::now().duration_since(std::time::UNIX_EPOCH).map(|d| d.as_millis() as u64).unwrap_or(1)
+}
+
+/// exit status of a worker that its own watchdog stopped because one case did not finish
+pub const HANG_EXIT: i32 = 86;
+
+/// A case that does not come back (an endless or astronomically long loop in the code under test)
+/// cannot be interrupted from inside; the watchdog ends the worker with a distinctive status and
+/// the driver records a hang for the case announced in the progress file, then carries on.
+fn spawn_watchdog(limit_s: u64) {
+    std::thread::spawn(move || loop {
+        std::thread::sleep(std::time::Duration::from_millis(250));
+        let since = BUSY_SINCE_MS.load(std::sync::atomic::Ordering::SeqCst);
+        if since != 0 && now_ms().saturating_sub(since) > limit_s * 1000 {
+            eprintln!("WATCHDOG: the announced case has been running for more than {} s", limit_s);
+            std::process::exit(HANG_EXIT);
+        }
+    });
+}
+
 impl Collector {
     pub fn new(prop: &str, a: &Args) -> Collector {
+        if a.progress.is_some() {
+            let limit = std::env::var("VERIF_CASE_TIMEOUT_S").ok().and_then(|x| x.parse().ok()).unwrap_or(if a.thorough() { 90 } else { 30 });
+            spawn_watchdog(limit);
+        }
         let progress = a.progress.as_ref().map(|p| unsafe {
             let c = std::ffi::CString::new(p.as_str()).unwrap();
             let fd = libc::open(c.as_ptr(), libc::O_RDWR | libc::O_CREAT, 0o644);
@@ -158,6 +186,7 @@ impl Collector {
     /// Advance the global case counter; true if this shard owns the case (and it is not skipped
     /// by --resume-after). Publishes the index in the progress file before the case runs.
     pub fn next_case(&mut self, space: &str) -> bool {
+        BUSY_SINCE_MS.store(0, std::sync::atomic::Ordering::SeqCst);
         let i = self.index;
         self.index += 1;
         if self.slow >= 8 {
@@ -195,6 +224,7 @@ impl Collector {
                 std::ptr::write_volatile(p, i);
                 std::ptr::write_volatile(p.add(1), 0);
             }
+            BUSY_SINCE_MS.store(now_ms().max(1), std::sync::atomic::Ordering::SeqCst);
         }
         true
     }
@@ -230,6 +260,7 @@ impl Collector {
         g.count += 1;
     }
     pub fn finish(&self, out: &str) {
+        BUSY_SINCE_MS.store(0, std::sync::atomic::Ordering::SeqCst);
         self.write(out, None);
     }
     /// `upto`: every owned case with index <= upto has been executed (checkpoint)
